@@ -71,8 +71,12 @@ class C12(Check):
         budget = rng.randint(0, 6)
         m = rng.randint(0, 8)
 
+        # value lattice: small integers, or large magnitudes on a fine step (distinct neighbours that only a tolerance
+        # comparison would confuse)
+        off, step = rng.choice([(0.0, 1.0), (0.0, 1.0), (1000.0, 0.001), (2024.0, 0.01), (-5e5, 0.5)])
+
         def pt():
-            return [float(rng.randrange(side)) for _ in range(d)]
+            return [off + step * rng.randrange(side) for _ in range(d)]
         hist = [pt() for _ in range(m)]
         if hist and rng.random() < 0.4:
             hist.append(list(rng.choice(hist)))          # history that already contains repeats
@@ -86,11 +90,14 @@ class C12(Check):
                 script.append(list(rng.choice(script)))          # repeat within batch / of an earlier redraw
             else:
                 script.append(pt())
-        return {"d": d, "B": B, "budget": budget, "hist": hist, "script": script}
+        return {"d": d, "B": B, "budget": budget, "hist": hist, "script": script, "lattice": [off, step, side]}
 
     def run_case(self, case, res: Result):
         d, B, budget = case["d"], case["B"], case["budget"]  # noqa: N806
-        space = make_space({"bounds": [SPACE["bounds"][0][:d], SPACE["bounds"][1][:d]], "precision": SPACE["precision"][:d]})
+        off, step, side = case.get("lattice", [0.0, 1.0, 10])
+        # the declared space is exactly the lattice the points live on (small spaces: the history may have more rows
+        # than the space has points)
+        space = make_space({"bounds": [[off] * d, [off + step * (max(side - 1, 1) + 0.25)] * d], "precision": [step] * d})
         hist = np.array(case["hist"], dtype=float).reshape((-1, d))
         losses = np.arange(len(hist), dtype=float)
         s = ScriptedSampler(B, case["script"], max_deduplication_passes=budget)
